@@ -41,14 +41,75 @@ pub trait Transform {
     fn transform(&self, str: String) -> (r: String) ensures r@ == self.tr(str@);
 }
 //@@ item src/api/transformer.rs :: struct Transformer
-// Transformer::to_transform (string dispatch + option parsing) is NOT under contract here: an uninterpreted partial function
-pub uninterp spec fn tf_some(t: Transformer) -> bool;
-pub uninterp spec fn tf_apply(t: Transformer, s: Seq<char>) -> Seq<char>;
+// the individual transformers: heck / std wrappers are NOT under contract (uninterpreted functions of the input); Replace / Slice carry
+// their parameters
+pub uninterp spec fn camel(s: Seq<char>) -> Seq<char>;
+pub uninterp spec fn kebab(s: Seq<char>) -> Seq<char>;
+pub uninterp spec fn snake(s: Seq<char>) -> Seq<char>;
+pub uninterp spec fn lowerc(s: Seq<char>) -> Seq<char>;
+pub uninterp spec fn upperc(s: Seq<char>) -> Seq<char>;
+pub uninterp spec fn replaced(s: Seq<char>, something: Seq<char>, with: Seq<char>) -> Seq<char>;
+pub uninterp spec fn sliced(s: Seq<char>, from: usize, to: Option<usize>) -> Seq<char>;
+//@@ item src/marker/transformer/camelize.rs :: struct Camelize
+//@@ item src/marker/transformer/dasherize.rs :: struct Dasherize
+//@@ item src/marker/transformer/lowercase.rs :: struct Lowercase
+//@@ item src/marker/transformer/underscorize.rs :: struct Underscorize
+//@@ item src/marker/transformer/uppercase.rs :: struct Uppercase
+//@@ item src/marker/transformer/replace.rs :: struct Replace
+//@@ item src/marker/transformer/slice.rs :: struct Slice
+impl Transform for Camelize { open spec fn tr(&self, s: Seq<char>) -> Seq<char> { camel(s) } #[verifier::external_body] fn transform(&self, str: String) -> (r: String) { unimplemented!() } }
+impl Transform for Dasherize { open spec fn tr(&self, s: Seq<char>) -> Seq<char> { kebab(s) } #[verifier::external_body] fn transform(&self, str: String) -> (r: String) { unimplemented!() } }
+impl Transform for Lowercase { open spec fn tr(&self, s: Seq<char>) -> Seq<char> { lowerc(s) } #[verifier::external_body] fn transform(&self, str: String) -> (r: String) { unimplemented!() } }
+impl Transform for Underscorize { open spec fn tr(&self, s: Seq<char>) -> Seq<char> { snake(s) } #[verifier::external_body] fn transform(&self, str: String) -> (r: String) { unimplemented!() } }
+impl Transform for Uppercase { open spec fn tr(&self, s: Seq<char>) -> Seq<char> { upperc(s) } #[verifier::external_body] fn transform(&self, str: String) -> (r: String) { unimplemented!() } }
+impl Transform for Replace { open spec fn tr(&self, s: Seq<char>) -> Seq<char> { replaced(s, self.something@, self.with@) } #[verifier::external_body] fn transform(&self, str: String) -> (r: String) { unimplemented!() } }
+impl Transform for Slice { open spec fn tr(&self, s: Seq<char>) -> Seq<char> { sliced(s, self.from, self.to) } #[verifier::external_body] fn transform(&self, str: String) -> (r: String) { unimplemented!() } }
+impl Replace {
+    //@@ fn src/marker/transformer/replace.rs :: impl Replace / fn new -> r
+    //@| ensures r.something == something, r.with == with,
+}
+impl Slice {
+    //@@ fn src/marker/transformer/slice.rs :: impl Slice / fn new -> r
+    //@| ensures r.from == from, r.to == to,
+}
+#[verifier::external_type_specification] #[verifier::external_body] pub struct ExParseIntError(std::num::ParseIntError);
+pub assume_specification<T, E> [std::result::Result::<T, E>::unwrap_or] (r: std::result::Result<T, E>, d: T) -> (o: T) ensures o == (match r { Ok(v) => v, Err(_) => d });
+// usize::from_str: an uninterpreted partial function of the text (ASSUMED: returns, deterministic)
+pub uninterp spec fn parse_usize(s: Seq<char>) -> Option<usize>;
+#[verifier::external_body] pub fn outl_usize_from_str(s: &str) -> (r: std::result::Result<usize, std::num::ParseIntError>)
+    ensures match r { Ok(v) => parse_usize(s@) == Some(v), Err(_) => parse_usize(s@) is None },
+{ /* verbatim: usize::from_str */ <usize as std::str::FromStr>::from_str(s) }
+pub open spec fn opt_has(t: Transformer, k: Seq<char>) -> bool {
+    t.options matches Some(o) && exists|key: String| key@ == k && o@.contains_key(key)
+}
+pub open spec fn opt_val(t: Transformer, k: Seq<char>) -> Seq<char> {
+    let o = t.options.unwrap(); let key = choose|key: String| key@ == k && o@.contains_key(key); o@[key]@
+}
+// which transformer descriptions denote a transformer (statement: "applying the marker's transformers in order"; unknown kinds and
+// incomplete option maps are skipped)
+pub open spec fn tf_some(t: Transformer) -> bool {
+    match t.kind {
+        None => false,
+        Some(k) => k@ == "camelize"@ || k@ == "dasherize"@ || k@ == "lowercase"@ || k@ == "underscorize"@ || k@ == "uppercase"@
+            || (k@ == "replace"@ && opt_has(t, "something"@) && opt_has(t, "with"@))
+            || (k@ == "slice"@ && opt_has(t, "from"@) && opt_has(t, "to"@)),
+    }
+}
+// ... and what the denoted transformer computes
+pub open spec fn tf_apply(t: Transformer, s: Seq<char>) -> Seq<char> {
+    let k = t.kind.unwrap()@;
+    if k == "camelize"@ { camel(s) } else if k == "dasherize"@ { kebab(s) } else if k == "lowercase"@ { lowerc(s) }
+    else if k == "underscorize"@ { snake(s) } else if k == "uppercase"@ { upperc(s) }
+    else if k == "replace"@ { replaced(s, opt_val(t, "something"@), opt_val(t, "with"@)) }
+    else { sliced(s, match parse_usize(opt_val(t, "from"@)) { Some(v) => v, None => 0 }, parse_usize(opt_val(t, "to"@))) }
+}
 impl Transformer {
-    #[verifier::external_body]
-    pub fn to_transform(&self) -> (r: Option<Box<dyn Transform>>)
-        ensures r is Some == tf_some(*self), r matches Some(b) ==> forall|s: Seq<char>| #[trigger] b.tr(s) == tf_apply(*self, s),
-    { unimplemented!() }
+    //@@ fn src/api/transformer.rs :: impl Transformer / fn to_transform -> r
+    //@| ensures r is Some == tf_some(*self), r matches Some(b) ==> forall|s: Seq<char>| #[trigger] b.tr(s) == tf_apply(*self, s),
+    //@| entry broadcast use vstd::std_specs::hash::group_hash_axioms; broadcast use axiom_string_key_model; broadcast use axiom_borrow_str_contains; broadcast use axiom_borrow_str_maps;
+    //@|     proof { axiom_string_ext(); axiom_str_ext(); reveal_strlit("camelize"); reveal_strlit("dasherize"); reveal_strlit("lowercase"); reveal_strlit("replace"); reveal_strlit("slice"); reveal_strlit("underscorize"); reveal_strlit("uppercase"); reveal_strlit("something"); reveal_strlit("with"); reveal_strlit("from"); reveal_strlit("to"); }
+    //@| replace `usize::from_str(`#0 => `outl_usize_from_str(` :: usize::from_str has no Verus spec; named uninterpreted function
+    //@| replace `usize::from_str(`#1 => `outl_usize_from_str(` :: usize::from_str has no Verus spec; named uninterpreted function
 }
 // reference: transformers applied left to right, unknown ones skipped
 pub open spec fn chain(ts: Seq<Transformer>, s: Seq<char>) -> Seq<char>
